@@ -258,7 +258,7 @@ fn check_extremes(n: usize) -> (u64, Vec<Found>) {
 /// zero upper half) is exercised with every combination of neighbours. Level m close to n probes the first layers
 /// of the forward transform, small m the first layers of the inverse. Oracle: the defining sums over the slot
 /// roots read off ntt(X).
-fn sparsity_patterns(halves: usize) -> Vec<Vec<bool>> {
+pub(crate) fn sparsity_patterns(halves: usize) -> Vec<Vec<bool>> {
     let mut out: Vec<Vec<bool>> = vec![];
     if halves <= 8 {
         for mask in 0..(1u32 << halves) {
